@@ -89,6 +89,17 @@ theorem raised_means_unpublished (cfg : Cfg) (body : Body) (plan : Plan) (fs0 : 
     · exact absurd h hne
     · rw [how] at h; cases h
 
+/-- the only way to get an exception from a save that IS published: `overwrite=False`, the `link`
+    onto the destination succeeded and a later call (the `unlink` of the part file) failed -/
+theorem raised_but_published_only_after_link (cfg : Cfg) (body : Body) (plan : Plan) (fs0 : FS) (e : Nat)
+    (hne : out cfg body plan fs0 e ≠ .ok) (hp : (fin cfg body plan fs0 e).published = true) :
+    cfg.overwrite = false ∧ Ev.linkPartDest ∈ (fin cfg body plan fs0 e).tr := by
+  obtain ⟨s, W, r⟩ := runSave_spec cfg fs0 e body plan
+  obtain ⟨_, _, h3, h4, _⟩ := r.pub (by rw [res_pub r]; exact hp)
+  rcases h3 with h | h
+  · exact absurd h hne
+  · exact ⟨h, h4 h⟩
+
 /-- **Early refusal.**  `overwrite=False` and the destination exists at entry: `OSError(EEXIST)`,
     and the file system is not touched at all. -/
 theorem refused_when_dest_exists (cfg : Cfg) (body : Body) (plan : Plan) (fs0 : FS) (e : Nat)
